@@ -110,6 +110,7 @@ int main(int argc, char** argv) {
     std::vector<int> heavy, light;
     for (size_t k = nsimple; k < nmod_end; ++k) {
       const std::string& n = L.ops[k].name;
+      if (n.find("@+8") == std::string::npos) continue;  // the scheduler works on the unaligned variants (the aligned ones are Engine B's)
       if (!th && n.find("|N=16|") == std::string::npos) continue;  // quick: N=16 (and NTT120 N=16); thorough adds N=4 (column-major vmp layout)
       bool h = n.find("vmp") != std::string::npos || n.find("dft") != std::string::npos || n.find("svp") != std::string::npos || n.find("small") != std::string::npos || n.find("normalize") != std::string::npos;
       (h ? heavy : light).push_back((int)k);
